@@ -118,7 +118,7 @@ class C14(Prop):
     rule = ("cases = corpus + known-finding inputs + boundary list (messages of N-1/N/N+1/3N bytes, LF arriving at "
             "length N-2/N-1/N, partial sends ending at/before/after the wrap point, all-EWOULDBLOCK, EPIPE mid-write, "
             "EINTR, close/peer close/peer FIN with pending data) + seeded random histories of write/vwrite/sendres/"
-            "flush/cycle/wready/close/peerfin/peerclose with message lengths on both sides of the buffer size, "
+            "flush/cycle/wready/close/peerfin/peerclose/input/vwrite2 with message lengths on both sides of the buffer size, "
             "LF densities 0..1 and send scripts of partial/W/I/P/E results, half of them started at a random ring "
             "offset, for three kinds of user (PORT_ASCII, PORT_TELNET with its connect negotiation, console user), one to "
             "three users per case with independent send scripts, snoop links (set, replaced, loop refused, cleared by "
